@@ -309,7 +309,7 @@ func init() {
 		ID: "C10", Pkgs: []string{"gateway", "util"}, TimedNative: true, LoopBound: 1000, ValidateN: 5,
 		Quick: func() []Inst {
 			var out []Inst
-			for p := int64(0); p <= 6; p++ {
+			for p := int64(0); p <= 7; p++ {
 				out = append(out, inst("gateway", "VH_C10_halfopen", p))
 			}
 			return append(out, inst("gateway", "VH_C10_answered", 0), inst("gateway", "VH_C10_answered", 3))
